@@ -619,6 +619,14 @@ func execute(t *testing.T, prop string, p *Plan) *core.Result {
 			tr.Dialer.RequireECH = true
 			res.Probe("static_ech_list_and_require_ech")
 		}
+		if p.BootstrapECH && len(p.Nodes) > 0 && p.Nodes[0].ECH != nil {
+			tr.Dialer.PublicName = p.Nodes[0].ECH.PublicName
+			res.Probe("dialer_public_name_set")
+		}
+		if p.DialerResolver {
+			tr.Dialer.Resolver = resolver
+			res.Probe("dialer_resolver_set_too")
+		}
 		tr.Dialer.DialFunc = func(ctx context.Context, network, addr string, tc *tls.Config) (c *tls.Conn, err error) {
 			if pn, msg, site := core.Guard(func() { c, err = r.dialTLS(ctx, network, addr, tc) }); pn {
 				res.Harness = "panic in the simulated dialer: " + msg + " @" + site
